@@ -1398,6 +1398,10 @@ static Janet os_execute_impl(int32_t argc, Janet *argv, JanetExecuteMode mode) {
 
     os_execute_cleanup(envp, child_argv);
     if (status) {
+        /* The parent's ends of pipes created for :pipe redirections are not yet owned by any stream */
+        if (pipe_owner_flags & JANET_PROC_OWNS_STDIN) close(new_in);
+        if (pipe_owner_flags & JANET_PROC_OWNS_STDOUT) close(new_out);
+        if (pipe_owner_flags & JANET_PROC_OWNS_STDERR) close(new_err);
         /* correct for macos bug where errno is not set */
         janet_panicf("%p: %s", argv[0], janet_strerror(errno ? errno : ENOENT));
     }
